@@ -125,7 +125,7 @@ impl Read for ScriptSrc {
         if c > 0 {
             n = n.min(c);
         }
-        let p = s.pos;
+        let p = s.pos.min(s.data.len());
         buf[..n].copy_from_slice(&s.data[p..p + n]);
         s.pos += n;
         s.log.push(IoEv::Read(want, n));
